@@ -233,3 +233,7 @@ impl<'a> Deref for CsptpMessage<'a> {
         &self.message
     }
 }
+
+#[cfg(feature = "pendulum_project_ntpd_rs_verif")]
+#[path = "/verif/hooks/statime-csptp/messages.rs"]
+pub mod vh_messages;
